@@ -64,6 +64,10 @@ func render(v any) string {
 var hostileUints = []uint64{'{', '[', '"', ' ', '\n', '\t', '}', ']', 'n', 't', 'f', '0', '-', 0, 1, 0xff, 0x7b7b7b7b7b7b7b7b, 0x207b, 0x0a7b, 1<<63 | '{', ^uint64(0), 1 << 32,
 	12, 13, 20, 12, 13, 20, 1<<32 | 20, 1<<32 | 12, 4, 8, 16, 24, 84, 100, 228, 232, 236}
 
+// offsetConstants: values a 4-byte SSZ offset field can hold in these containers. A scalar whose low 32 bits
+// equal one of them (whatever its upper half) looks like an offset to a decoder that sniffs the layout.
+var offsetConstants = []uint64{12, 12, 12, 13, 13, 20, 20, 20, 4, 8, 16, 24, 84, 100, 228, 232, 236}
+
 func TestC14RoundTrip(t *testing.T) {
 	vstat.Rule("C14", ruleRT)
 	rapid.Check(t, func(rt *rapid.T) {
@@ -73,7 +77,16 @@ func TestC14RoundTrip(t *testing.T) {
 		// Encodings are sniffed by their leading bytes (SSZ first, JSON second), so slots, indices and
 		// amounts are also set to values whose little-endian bytes look like JSON or are extreme.
 		hostile := ""
-		if leaves := valgen.Uint64Leaves(ptr); len(leaves) > 0 && rapid.IntRange(0, 2).Draw(rt, "hostile") > 0 {
+		if leaves := valgen.Uint64Leaves(ptr); len(leaves) > 0 && rapid.IntRange(0, 3).Draw(rt, "leadingScalarLooksLikeOffset") == 0 {
+			// the first scalar of the value (what follows the version / leading offsets in its SSZ form) holds
+			// an offset constant in its low half
+			x := rapid.SampledFrom(offsetConstants).Draw(rt, "leading_offset_value")
+			if rapid.Bool().Draw(rt, "leading_upper_half") {
+				x |= uint64(rapid.IntRange(1, 1<<20).Draw(rt, "leading_upper")) << 32
+			}
+			leaves[0].Set(x)
+			hostile = leaves[0].Path
+		} else if len(leaves) > 0 && rapid.IntRange(0, 2).Draw(rt, "hostile") > 0 {
 			nset := rapid.IntRange(1, min(3, len(leaves))).Draw(rt, "hostile_n")
 			for j := 0; j < nset; j++ {
 				var li int
@@ -82,9 +95,17 @@ func TestC14RoundTrip(t *testing.T) {
 				} else {
 					li = rapid.IntRange(0, len(leaves)-1).Draw(rt, "leaf")
 				}
-				x := rapid.SampledFrom(hostileUints).Draw(rt, "hostile_value")
-				if rapid.Bool().Draw(rt, "hostile_high") {
-					x |= uint64(rapid.IntRange(0, 1<<20).Draw(rt, "high")) << 8
+				var x uint64
+				if rapid.IntRange(0, 2).Draw(rt, "hostile_offset_constant") == 0 {
+					x = rapid.SampledFrom(offsetConstants).Draw(rt, "offset_value")
+					if rapid.Bool().Draw(rt, "offset_upper_half") {
+						x |= uint64(rapid.IntRange(1, 1<<20).Draw(rt, "upper")) << 32
+					}
+				} else {
+					x = rapid.SampledFrom(hostileUints).Draw(rt, "hostile_value")
+					if rapid.Bool().Draw(rt, "hostile_high") {
+						x |= uint64(rapid.IntRange(0, 1<<20).Draw(rt, "high")) << 8
+					}
 				}
 				if x == 0 && (strings.HasSuffix(leaves[li].Path, "CommitteeLength") || strings.HasSuffix(leaves[li].Path, "CommitteesAtSlot")) {
 					x = 1 // the attester duty's own decoder declares zero invalid for these two fields
